@@ -183,6 +183,33 @@ def main():
                               f"each judged alone: {kept_alone}; comps={case['comps']} lim={case['lim']}", dict(kind="td-mixed", case=case))
             mixed += 1
     run.notes["mixed_duration_lists"] = mixed
+    # ---- the verdict is a function of the CURRENT samples: the same record objects judged, modified in place (all components
+    #      doubled / one window multiplied by 8), and judged again - against fresh records with the same samples
+    for n_, ci in enumerate(order[:200 if quick else 2000]):
+        case = cases[ci]
+        comps = tuple(case["comps"])
+        lo, hi = case["lim"][0][0] / case["lim"][0][1], case["lim"][1][0] / case["lim"][1][1]
+        thr, normed = case["thr"][0][0] / case["thr"][0][1], case["thr"][1]
+        mk = lambda f_: [h.SeismicRecording3C(*[h.TimeSeries(series(pats[p - 1], f_[w]), DT) for p in case["pat"][w]]) for w in range(nwin)]
+        recs = mk([1.0] * nwin)
+        for fn_, kwargs in (("maximum_value_window_rejection", dict(maximum_value_threshold=thr, normalized=normed, components=comps)),
+                            ("sta_lta_window_rejection", dict(sta_seconds=STA, lta_seconds=LTA, min_sta_lta_ratio=lo, max_sta_lta_ratio=hi, components=comps))):
+            getattr(h, fn_)(recs, **kwargs)
+            fac = [8.0 if w == 0 else 1.0 for w in range(nwin)]
+            for w, r in enumerate(recs):
+                for c in ("ns", "ew", "vt"):
+                    getattr(r, c).amplitude *= fac[w]
+            again = getattr(h, fn_)(recs, **kwargs)
+            fresh = mk(fac)
+            want = getattr(h, fn_)(fresh, **kwargs)
+            k_again = [any(g is r for g in again) for r in recs]
+            k_want = [any(g is r for g in want) for r in fresh]
+            if k_again != k_want:
+                run.violation(f"{fn_}:after-in-place-change", f"{fn_}: windows judged, window 1 multiplied by 8 in place, judged again: kept {k_again}; fresh records "
+                              f"with the same samples: {k_want}; case={case}", dict(kind="td-inplace", fn=fn_, case=case))
+            for w, r in enumerate(recs):          # undo for the second function
+                for c in ("ns", "ew", "vt"):
+                    getattr(r, c).amplitude /= fac[w]
 
     # ---- histories: the TdReject action of the HvsrObject state machine on real objects ----------
     for na, rng_, k in ((1, "Ranges6", 40 if quick else 8), (2, "Ranges6s", 15000 if quick else 3000)):
